@@ -1,195 +1,3 @@
-mod cfg_engine;
-mod comp_deque;
-mod comp_sketch;
-mod engine;
-mod exec;
-mod gen;
-mod sched;
-mod stress;
-mod sched_hooks;
-mod subject;
-mod sup;
-mod track;
-mod types;
-
-use std::collections::BTreeSet;
-use std::path::PathBuf;
-
-pub fn extra_engines(prop: &str, thorough: bool) -> Vec<sup::EnginePlan> {
-    let mut v = Vec::new();
-    let t = thorough;
-    if matches!(prop, "C02" | "C03" | "C04" | "C07" | "C08" | "C09" | "C10" | "C11") {
-        v.push(sup::EnginePlan { engine: "sched", workers: 16, cases_per_worker: if t { 12000 } else { 1200 }, timeout_s: if t { 2400 } else { 600 } });
-    }
-    if matches!(prop, "C02" | "C04" | "C16") {
-        v.push(sup::EnginePlan { engine: "stress", workers: 4, cases_per_worker: 1, timeout_s: if t { 1800 } else { 600 } });
-    }
-    if prop == "C17" {
-        v.push(sup::EnginePlan { engine: "cfg", workers: 16, cases_per_worker: if t { 6000 } else { 700 }, timeout_s: if t { 1500 } else { 400 } });
-    }
-    if prop == "C08" {
-        v.push(sup::EnginePlan { engine: "deque", workers: 16, cases_per_worker: if t { 20000 } else { 2500 }, timeout_s: if t { 1500 } else { 400 } });
-    }
-    if prop == "C14" || prop == "C08" {
-        v.push(sup::EnginePlan { engine: "sketch", workers: 16, cases_per_worker: if t { 1500 } else { 150 }, timeout_s: if t { 1500 } else { 400 } });
-    }
-    v
-}
-
-pub fn rule_for(prop: &str, engine: &str) -> String {
-    match engine {
-        "seq" => {
-            if prop == "C15" {
-                "metamorphic pairs: base history h and h' = h plus extra contains_key/iter calls at generated positions; the results of all other operations and the final residents must be identical; non-trivial = >= 1 extra call was inserted and an eviction, rejection or expiry purge happened in the history; distinct = distinct case hash".to_string()
-            } else {
-                gen::rule_text(prop).to_string()
-            }
-        }
-        "sketch" => comp_sketch::RULE.to_string(),
-        "cfg" => cfg_engine::RULE.to_string(),
-        "deque" => comp_deque::RULE.to_string(),
-        "sched" => sched::RULE.to_string(),
-        "stress" => match prop {
-            "C04" => stress::RULE_C04,
-            "C16" => stress::RULE_C16,
-            _ => stress::RULE_C02,
-        }
-        .to_string(),
-        _ => String::new(),
-    }
-}
-
-pub fn assumptions_for(prop: &str) -> Vec<String> {
-    let mut v = vec![
-        "exploration only: the property held on every generated case; nothing is proved about cases not generated".to_string(),
-        "the cfg(mini_moka_verif) hooks (mock clock, read-only snapshots, walker, estimate accessor) report the cache's real state".to_string(),
-        "key universes are smaller than one maintenance batch (100 / 500), except in explicit burst cases".to_string(),
-    ];
-    if matches!(prop, "C02" | "C07" | "C09" | "C16") {
-        v.push("threads are serialised at source-level switch points; weak-memory reorderings and preemptions inside DashMap/crossbeam are not explored".to_string());
-    }
-    v
-}
-
-fn arg<'a>(args: &'a [String], name: &str) -> Option<&'a str> {
-    args.iter().position(|a| a == name).and_then(|i| args.get(i + 1)).map(|s| s.as_str())
-}
-
 fn main() {
-    let args: Vec<String> = std::env::args().collect();
-    let cmd = args.get(1).map(|s| s.as_str()).unwrap_or("");
-    match cmd {
-        "run" => {
-            let prop = arg(&args, "--prop").expect("--prop").to_string();
-            let thorough = arg(&args, "--tier") == Some("thorough");
-            let seed = arg(&args, "--seed").and_then(|s| s.parse().ok()).or_else(|| std::env::var("VERIF_SEED").ok().and_then(|s| s.parse().ok())).unwrap_or(1);
-            let code = sup::run(&sup::RunArgs { prop, thorough, seed });
-            std::process::exit(code);
-        }
-        "worker" => {
-            engine::install_panic_hook();
-            sched_hooks::install();
-            let prop = arg(&args, "--prop").expect("--prop").to_string();
-            let eng = arg(&args, "--engine").unwrap_or("seq").to_string();
-            let thorough = arg(&args, "--tier") == Some("thorough");
-            let seed: u64 = arg(&args, "--seed").and_then(|s| s.parse().ok()).unwrap_or(1);
-            let idx: u64 = arg(&args, "--idx").and_then(|s| s.parse().ok()).unwrap_or(0);
-            let cases: u32 = arg(&args, "--cases").and_then(|s| s.parse().ok()).unwrap_or(100);
-            let dir = PathBuf::from(arg(&args, "--dir").expect("--dir"));
-            let open: BTreeSet<String> = arg(&args, "--open").unwrap_or("").split(',').filter(|s| !s.is_empty()).map(|s| s.to_string()).collect();
-            let nworkers: u64 = arg(&args, "--nworkers").and_then(|s| s.parse().ok()).unwrap_or(1);
-            let wa = engine::WorkerArgs { prop, thorough, seed, idx, nworkers, cases, dir: dir.clone(), open_findings: open };
-            let res = match eng.as_str() {
-                "seq" => engine::seq_worker(&wa),
-                "sketch" => comp_sketch::sketch_worker(&wa),
-                "cfg" => cfg_engine::cfg_worker(&wa),
-                "deque" => comp_deque::deque_worker(&wa),
-                "stress" => stress::stress_worker(&wa),
-                "sched" => {
-                    let r = sched::sched_worker(&wa);
-                    sched_hooks::install();
-                    r
-                }
-                other => panic!("unknown engine {other}"),
-            };
-            engine::write_result(&dir, idx, &res);
-        }
-        "replay" => {
-            // replay <file> : re-execute a saved violation without proptest
-            engine::install_panic_hook();
-            sched_hooks::install();
-            let path = args.get(2).expect("replay <file>");
-            let quiet = args.iter().any(|a| a == "--quiet");
-            let found: engine::Found = serde_json::from_slice(&std::fs::read(path).expect("read replay")).expect("parse replay");
-            let code = replay_found(&found, path, quiet);
-            std::process::exit(code);
-        }
-        "replay-case" => {
-            // replay-case <case.json> --prop P --engine E : used to confirm crashes / hangs
-            engine::install_panic_hook();
-            sched_hooks::install();
-            let path = args.get(2).expect("replay-case <file>");
-            let prop = arg(&args, "--prop").expect("--prop").to_string();
-            let eng = arg(&args, "--engine").unwrap_or("seq").to_string();
-            let case: serde_json::Value = serde_json::from_slice(&std::fs::read(path).expect("read")).expect("parse");
-            let found = engine::Found { property: prop, message: String::new(), engine: eng, case, trace: vec![], avoid: vec![] };
-            let code = replay_found(&found, path, false);
-            std::process::exit(code);
-        }
-        _ => {
-            eprintln!("usage: mmv run --prop <ID> --tier quick|thorough [--seed N] | replay <file>");
-            std::process::exit(2);
-        }
-    }
-}
-
-fn replay_found(found: &engine::Found, path: &str, quiet: bool) -> i32 {
-    match found.engine.as_str() {
-        "seq" | "seq-pair" | "" => {
-            let case: types::Case = serde_json::from_value(found.case.clone()).expect("case");
-            // replays are strict: no known finding is avoided
-            let (ran, _) = engine::rerun_with_trace(&found.property, &case, found.avoid.iter().any(|a| a == "S6"));
-            if !quiet {
-                for l in &ran.trace {
-                    println!("    {l}");
-                }
-            }
-            match ran.violation {
-                Some(v) if v.prop == found.property => {
-                    println!("[{} at step {}] {}", v.prop, v.step, v.msg);
-                    println!("VIOLATION property={} replay={}", found.property, path);
-                    1
-                }
-                Some(v) => {
-                    println!("note: replay met a violation of another property: [{}] {}", v.prop, v.msg);
-                    0
-                }
-                None => 0,
-            }
-        }
-        "sketch" => report(comp_sketch::replay(found), found, path),
-        "cfg" => report(cfg_engine::replay(found), found, path),
-        "deque" => report(comp_deque::replay(found), found, path),
-        "sched" => report(sched::replay(found, !quiet), found, path),
-        "stress" => report(stress::replay(found), found, path),
-        other => {
-            eprintln!("unknown engine {other}");
-            2
-        }
-    }
-}
-
-fn report(v: Option<exec::Violation>, found: &engine::Found, path: &str) -> i32 {
-    match v {
-        Some(v) if v.prop == found.property => {
-            println!("[{} at step {}] {}", v.prop, v.step, v.msg);
-            println!("VIOLATION property={} replay={}", found.property, path);
-            1
-        }
-        Some(v) => {
-            println!("note: replay met a violation of another property: [{}] {}", v.prop, v.msg);
-            0
-        }
-        None => 0,
-    }
+    mmv::cli_main();
 }
